@@ -28,6 +28,9 @@ import (
 
 const cPrefix = 8192 // bytes of each shared file the model tracks (everything beyond is zero)
 
+// cRtMax: the rtmax the server announces (set when a world is set up; the same for every server of this build)
+var cRtMax uint64 = 1 << 62
+
 var cFileNames = []string{"a", "b", "c"}
 var cDirNames = []string{"x", "y"}
 
@@ -314,8 +317,10 @@ func dataStep(size uint64, data string, o cOp, r cRes) (ok bool, nsize uint64, n
 			}
 		}
 		if r.Data != string(want) {
-			// on a full disk a hole cannot be filled and the read ends early
-			if !(o.MayFail && strings.HasPrefix(string(want), r.Data)) {
+			// on a full disk a hole cannot be filled and the read ends early; and a server may answer with fewer
+			// bytes than asked for, but not fewer than its announced rtmax when that much is there
+			short := strings.HasPrefix(string(want), r.Data) && uint64(len(r.Data)) >= atomic.LoadUint64(&cRtMax)
+			if !(o.MayFail && strings.HasPrefix(string(want), r.Data)) && !short {
 				return false, size, data, false
 			}
 		}
@@ -470,6 +475,9 @@ func setupWorld(unstable bool, lowChildren bool, d *Disk) (*cWorld, error) {
 		s.Restart() // the allocator starts from the lowest free number again
 	}
 	w.Init = emptyCState()
+	if fi := s.API().NFSPROC3_FSINFO(nt.FSINFO3args{Fsroot: root}); fi.Status == nt.NFS3_OK && fi.Resok.Rtmax > 0 {
+		atomic.StoreUint64(&cRtMax, uint64(fi.Resok.Rtmax))
+	}
 	return w, nil
 }
 
@@ -521,8 +529,10 @@ func (w *cWorld) exec(api API, o cOp) cRes {
 		sort.Strings(handles)
 		return cRes{OK: r.Status == nt.NFS3_OK && r.Resok.Reply.Eof, Names: strings.Join(names, ","), Plus: strings.Join(append(sizes, handles...), ",")}
 	case "sweep":
+		// every extra file once, starting at a position of the operation's choosing (clients walk in different phases)
 		ok := true
-		for _, h := range w.Extra {
+		for i := range w.Extra {
+			h := w.Extra[(i+int(o.Off))%len(w.Extra)]
 			if api.NFSPROC3_GETATTR(nt.GETATTR3args{Object: h}).Status != nt.NFS3_OK {
 				ok = false
 			}
